@@ -10,7 +10,16 @@ import (
 // Engine is the compiled query. It is able to evaluate the entire query.
 type Engine struct {
 	Statements []*Statement
+
+	// variableDepth is how many variables are being evaluated inside each
+	// other right now. See VariableExpr.
+	variableDepth int
 }
+
+// maxVariableDepth is the deepest that variables can refer to other variables.
+// It only exists to turn a variable that is defined in terms of itself (which
+// would never finish) into an error.
+const maxVariableDepth = 1000
 
 // Evaluate executes all of the expressions and returns the final result.
 //
